@@ -3,6 +3,7 @@
 package scen
 
 import (
+	"bytes"
 	"fmt"
 	"math/rand"
 	"net"
@@ -590,7 +591,7 @@ func runC14(c *Ctx) {
 	r := c.R
 	r.Assume("events are injected only on a control connection that is up; failover is forced between bursts")
 	r.Assume("EVENT frames are framed with the cluster's negotiated version whatever the client's version; content is compared after decoding")
-	r.Require("must_deliveries_checked", "topology_events_injected", "status_events_injected", "control_failovers", "zombie_rounds", "control_failovers_after_failed_refresh", "bursts_followed_by_control_close", "repeated_registers", "failovers_past_an_old_release_node")
+	r.Require("must_deliveries_checked", "topology_events_injected", "status_events_injected", "control_failovers", "zombie_rounds", "control_failovers_after_failed_refresh", "bursts_followed_by_control_close", "repeated_registers", "failovers_past_an_old_release_node", "backlog_client_events_emitted")
 	n := c.Pick(160, 15000)
 	for i := 0; i < n; i++ {
 		if c.Replay != nil && c.Replay["kind"] == "c14" {
@@ -601,5 +602,86 @@ func runC14(c *Ctx) {
 			continue
 		}
 		c14History(c, i)
+	}
+	if c.Replay == nil {
+		for i := 0; i < c.Pick(1, 16); i++ {
+			if c.Mine(i + 3) {
+				c14Backlog(c, i)
+			}
+		}
+	}
+}
+
+// c14Backlog: a registered client with a backlog - it has pipelined thousands of requests and is not reading - is still
+// connected, so the schema events the backend emits meanwhile are its to receive, once each, when it reads again (unless
+// the proxy gives it up and closes the connection). A second registered client that reads normally gets them at once.
+func c14Backlog(c *Ctx, idx int) {
+	r := c.R
+	stall := time.Duration(c.Pick(6, 10)) * time.Second
+	c.Step("c14 registered client with a backlog idx=%d", idx)
+	bed, err := px.NewBed(px.BedConfig{Hosts: 1 + idx%2, NumConns: 1, Keyspaces: []string{"ks1"}})
+	if err != nil {
+		r.Inconc("c14 backlog: cannot start bed: " + err.Error())
+		return
+	}
+	defer bed.Close()
+	bed.OnHook(nil)
+	wit, err := bed.ReadyClient(primitive.ProtocolVersion4, "")
+	if err != nil {
+		r.Inconc("c14 backlog: " + err.Error())
+		return
+	}
+	defer wit.Close()
+	if _, err := wit.Call(1, &message.Register{EventTypes: []primitive.EventType{primitive.EventTypeSchemaChange}}, 10*time.Second); err != nil {
+		r.Inconc("c14 backlog: witness REGISTER: " + err.Error())
+		return
+	}
+	id := fmt.Sprintf("backlog%d", idx)
+	nEvents := 3 + idx%3
+	emitted := 0
+	res, err := slowReaderRun(bed, 3000, 16384, stall, true, func() {
+		if len(bed.Cluster.EstablishedControlConns()) == 0 {
+			return
+		}
+		for k := 0; k < nEvents; k++ {
+			if bed.Cluster.Emit(schemaEvent(id, k)) > 0 {
+				emitted++
+			}
+			time.Sleep(100 * time.Millisecond)
+		}
+	})
+	if err != nil {
+		r.Inconc("c14 backlog: " + err.Error())
+		return
+	}
+	r.Eval(emitted)
+	r.Obs("backlog_client_events_emitted", emitted)
+	if emitted == 0 {
+		r.Inconc("c14 backlog: no event could be emitted")
+		return
+	}
+	ws, _, _ := eventsOf(wit)
+	if len(ws[id]) != emitted { // the premise: the events went through the proxy at all (the witness is judged by the histories)
+		r.Inconc(fmt.Sprintf("c14 backlog: the witness client got %d of %d events", len(ws[id]), emitted))
+		return
+	}
+	r.NonTrivial(fmt.Sprintf("backlog/events=%d/h%d", nEvents, 1+idx%2))
+	if res.Closed {
+		r.Obs("backlog_client_closed_by_proxy", 1)
+		return
+	}
+	mine := 0
+	for _, b := range res.Events {
+		if bytes.Contains(b, []byte(id)) {
+			mine++
+		}
+	}
+	r.Obs("must_deliveries_checked", emitted)
+	switch {
+	case mine < emitted:
+		r.Violate(mon.Violation{Signature: "C14/registered-client-got-no-copy/client-with-backlog", Detail: fmt.Sprintf("a registered client had pipelined %d requests and was not reading when the backend emitted %d schema events; it stayed connected and read everything afterwards (%d replies), but received only %d of the events (another registered client received all %d)", res.Sent, emitted, len(res.PerStream), mine, emitted),
+			Scenario: map[string]interface{}{"kind": "c14-backlog", "idx": idx}})
+	case mine > emitted:
+		r.Violate(mon.Violation{Signature: "C14/registered-client-got-duplicate-copies/client-with-backlog", Detail: fmt.Sprintf("%d events emitted, the client with a backlog received %d copies", emitted, mine), Scenario: map[string]interface{}{"kind": "c14-backlog", "idx": idx}})
 	}
 }
